@@ -177,6 +177,28 @@ def idx(n, name):
     return ent[2]
 
 
+def hint(*terms):
+    pass
+
+
+def Delta(shape, pos, amp, kind='f'):
+    a = np.zeros(tuple(int(d) for d in shape), dtype='float64' if kind == 'f' else 'complex128')
+    a[tuple(int(p) for p in pos)] = amp
+    return a
+
+
+class stub:
+    """no-op in concrete mode: the real callee runs"""
+    def __init__(self, module, name, spec):
+        pass
+
+    def __enter__(self):
+        return self
+
+    def __exit__(self, *a):
+        return False
+
+
 def assume(c):
     if not _truth(c):
         raise PathAbort('assumption false')
